@@ -117,7 +117,9 @@ PROPERTIES = {
             "pairs are formed only between compatible pixels (same colour space, same channel value types), as the operations require",
             "channel_type / operator[] / raw memory order are checked for homogeneous pixels only (heterogeneous packed pixels have no single channel type)",
         ],
-        "targets": [{"name": "c05_pixels", "src": "c05_pixel_semantics.cpp", "mode": "asan", "flags": ['-DVERIF_TARGET_NAME="c05_pixels"'], "subtargets": ["pair", "single"]}],
+        # four binaries (groups gi % 4 == k): the const/non-const overload matrix makes one TU compile for four minutes
+        "targets": [{"name": "c05_pixels_p%d" % k, "src": "c05_pixel_semantics.cpp", "mode": "asan",
+                     "flags": ["-DC05_PARTS=4", "-DC05_PART=%d" % k, '-DVERIF_TARGET_NAME="c05_pixels_p%d"' % k], "subtargets": ["pair", "single"], "match": ("group", 4, k)} for k in range(4)],
     },
     "C08": {
         "level": "exploration",
